@@ -78,7 +78,83 @@ def make_desc(rng, migrations=None, edge_md=True, unique_node_md=False, max_node
                          bytes([0xD0, rng.randrange(256)]).hex() if rng.random() < 0.8 else ""])
         migs.sort(key=lambda m: m[5])
     d["migrations"] = migs
+    if rng.random() < 0.3:
+        pad_ends(d, rng)
+    if rng.random() < 0.35:
+        ragged_shapes(d, rng, keep_node_md=unique_node_md, keep_edge_md=not edge_md)
+    d, _pi = gen_ts.permute_node_ids(rng, d, p=0.5)
     return d
+
+
+def pad_ends(d, rng):
+    """Long edge-less end regions: everything is shifted right by a and the sequence extended by
+    a + b, so the first / last trees have no edges; a few sites (with mutations above isolated
+    sample nodes, or none) fall into the empty flanks."""
+    a = rng.choice([0, 1, 2, 3])
+    b = rng.choice([0, 1, 2, 3])
+    L0 = d["L"]
+    for e in d["edges"]:
+        e[0] += a
+        e[1] += a
+    for g in d["migrations"]:
+        g[0] += a
+        g[1] += a
+    for s_ in d["sites"]:
+        s_[0] += a
+    d["L"] = L0 + a + b
+    flank = [x / 2 for x in range(0, 2 * a)] + [x / 2 for x in range(2 * (L0 + a), 2 * d["L"])]
+    rng.shuffle(flank)
+    n = len(d["nodes"])
+    times = [r[1] for r in d["nodes"]]
+    unknown = any(m[4] is None for m in d["mutations"]) or not d["mutations"]
+    for pos in flank[:rng.randrange(0, 3)]:
+        pos = int(pos) if pos == int(pos) else pos
+        k = sum(1 for s_ in d["sites"] if s_[0] < pos)          # insertion index keeps sites sorted
+        d["sites"].insert(k, [pos, rng.choice("ACGT"), gen_ts.hx(rng)])
+        for m in d["mutations"]:
+            if m[0] >= k:
+                m[0] += 1
+        if n and rng.random() < 0.6:
+            u = rng.randrange(n)
+            j = sum(1 for m in d["mutations"] if m[0] < k)
+            d["mutations"].insert(j, [k, u, rng.choice("ACGT"), NULL, None if unknown else times[u], gen_ts.hx(rng)])
+            for m in d["mutations"]:
+                if m[3] != NULL and m[3] >= j:
+                    m[3] += 1
+
+
+def ragged_shapes(d, rng, keep_node_md=False, keep_edge_md=False):
+    """Ragged columns in their awkward shapes: a column that is empty in every row beside a
+    non-empty sibling, a fixed-width-looking column (every cell the same length), and a column
+    whose first cell has the mean length."""
+    def reshape(rows, col, is_text):
+        if not rows:
+            return
+        mode = rng.choice(["keep", "empty", "fixed", "first-mean"])
+        mk = (lambda k: "ACGT"[:k] if k <= 4 else "A" * k) if is_text else (lambda k: bytes(rng.randrange(256) for _ in range(k)).hex())
+        if mode == "empty":
+            for r in rows:
+                r[col] = ""
+        elif mode == "fixed":
+            k = rng.choice([1, 2, 4])
+            for r in rows:
+                r[col] = mk(k)
+        elif mode == "first-mean":
+            lens = [rng.randrange(0, 5) for _ in rows]
+            lens[0] = round(sum(lens) / len(lens))
+            for r, k in zip(rows, lens):
+                r[col] = mk(k)
+    reshape(d["sites"], 1, True)
+    reshape(d["sites"], 2, False)
+    reshape(d["mutations"], 2, True)
+    reshape(d["mutations"], 5, False)
+    if not keep_edge_md:
+        reshape(d["edges"], 4, False)
+    reshape(d["migrations"], 6, False)
+    if not keep_node_md:
+        reshape(d["nodes"], 4, False)
+    reshape(d["populations"], 0, False)
+    reshape(d["individuals"], 3, False)
 
 
 def resort_mutations(d):
@@ -265,7 +341,56 @@ def build(case, **kw):
     tc = gen_ts.build_tables(case["desc"], **kw)
     if case.get("ctx"):
         set_context(tc)
+    if case.get("stale") and tc.edges.num_rows:
+        # stale derived state: the index was built for one more edge row than the table now has
+        tc.edges.truncate(tc.edges.num_rows - 1)
+    if case.get("pre"):
+        # a history, not a single step: an interval edit first (simplify off), then the operation
+        s = case["desc"]["scale"]
+        pre = case["pre"]
+        getattr(tc, pre["op"])([[real(a, s), real(b, s)] for a, b in pre["intervals"]],
+                               simplify=False, record_provenance=False)
     return tc
+
+
+def complement(ivs, P):
+    out, last = [], 0
+    for a, b in ivs:
+        if a > last:
+            out.append([last, a])
+        last = b
+    if last < P:
+        out.append([last, P])
+    return out
+
+
+def keep_rows(rows, ivs):
+    """Definition-level keep_intervals (simplify off) on lattice rows: rows clipped to each interval,
+    sites / mutations outside dropped with ids renumbered."""
+    out = dict(rows)
+    out["edges"] = [[max(a, e[0]), min(b, e[1])] + e[2:] for a, b in ivs for e in rows["edges"]
+                    if max(a, e[0]) < min(b, e[1])]
+    out["migrations"] = [[max(a, g[0]), min(b, g[1])] + g[2:] for a, b in ivs for g in rows["migrations"]
+                         if max(a, g[0]) < min(b, g[1])]
+    keep = [in_ivs(ivs, r[0]) for r in rows["sites"]]
+    out["sites"], out["mutations"] = site_mut_expect(rows["sites"], rows["mutations"], keep)
+    return out
+
+
+def effective_input(case):
+    """The rows the operation under test starts from, derived from the description only."""
+    rows = rows_of_desc(case["desc"])
+    if case.get("stale") and rows["edges"]:
+        tm = [r[1] for r in rows["nodes"]]
+        last = max(range(len(rows["edges"])),
+                   key=lambda k: (tm[rows["edges"][k][2]], rows["edges"][k][2], rows["edges"][k][3], rows["edges"][k][0]))
+        rows["edges"] = rows["edges"][:last] + rows["edges"][last + 1:]
+    if case.get("pre"):
+        ivs = case["pre"]["intervals"]
+        if case["pre"]["op"] == "delete_intervals":
+            ivs = complement(ivs, rows["L"])
+        rows = keep_rows(rows, ivs)
+    return rows
 
 
 def finish(obs, case, tc_in_ctx, out):
@@ -531,6 +656,13 @@ def as_layout(values, layout, dtype):
     import numpy as np
     if layout == "list":
         return values
+    if layout == "tuple":
+        return tuple(tuple(v) if isinstance(v, (list, tuple)) else v for v in values)
+    if layout == "small-dtype":
+        flat = [x for v in values for x in (v if isinstance(v, (list, tuple)) else [v])]
+        if all(float(x) == int(x) and 0 <= x < 120 for x in flat):
+            return np.array(values, dtype=np.random.default_rng(len(flat)).choice([np.int8, np.uint8, np.int16, np.uint32, np.int64]))
+        return np.array(values, dtype=dtype)
     a = np.array(values, dtype=dtype)
     if layout == "array":
         return a
@@ -554,7 +686,7 @@ def as_layout(values, layout, dtype):
     raise ValueError(layout)
 
 
-LAYOUTS = ["list", "list", "array", "other-dtype", "strided", "reversed", "column"]
+LAYOUTS = ["list", "list", "tuple", "array", "other-dtype", "small-dtype", "strided", "reversed", "column"]
 
 
 def try_op(f):
@@ -610,6 +742,15 @@ class Flagged(Family):
                 c["prov"] = True
             if c.get("op") in ("keep_intervals", "delete_intervals", "delete_sites") and "raw_intervals" not in c:
                 c["layout"] = r2.choice(LAYOUTS)
+            table_level = c.get("api", "tc") == "tc" and c.get("op") in (
+                "keep_intervals", "delete_intervals", "delete_sites", "ltrim", "rtrim", "trim", "delete_older")
+            if table_level and c.get("sorted", True) and not c.get("simplify") and r2.random() < 0.12:
+                c["stale"] = True
+            if c.get("op") in ("ltrim", "rtrim", "trim", "delete_sites", "delete_older") and c.get("sorted", True) \
+                    and r2.random() < 0.2:
+                P = 2 * c["desc"]["L"]
+                c["pre"] = {"op": r2.choice(["keep_intervals", "delete_intervals"]),
+                            "intervals": valid_interval_lists(P, r2, 1)[0]}
             yield c
 
 
@@ -625,7 +766,8 @@ class Intervals(Flagged):
         # exhaustive interval lists on a few small descriptions
         for k in range(3 if tier == "quick" else 12):
             d = make_desc(rng, max_L=2 if k % 2 else 3, max_nodes=5)
-            for ivs in all_interval_lists(2 * d["L"], 2):
+            lists = all_interval_lists(2 * d["L"], 2) if d["L"] <= 3 else valid_interval_lists(2 * d["L"], rng, 60)
+            for ivs in lists:
                 yield {"op": rng.choice(["keep_intervals", "delete_intervals"]), "api": "tc", "simplify": False,
                        "intervals": ivs, "desc": d}
         for _ in range(nd):
@@ -704,7 +846,7 @@ class Intervals(Flagged):
 
     def oracle(self, case, obs):
         fails = []
-        inp = rows_of_desc(case["desc"])
+        inp = effective_input(case)
         op = case["op"]
         P = inp["L"]
         check_input(inp, obs, fails)
@@ -964,7 +1106,7 @@ class Trim(Flagged):
 
     def oracle(self, case, obs):
         fails = []
-        inp = rows_of_desc(case["desc"])
+        inp = effective_input(case)
         op = case["op"]
         check_input(inp, obs, fails)
         if not inp["edges"]:
@@ -1107,7 +1249,7 @@ class DelSites(Flagged):
 
     def oracle(self, case, obs):
         fails = []
-        inp = rows_of_desc(case["desc"])
+        inp = effective_input(case)
         check_input(inp, obs, fails)
         ns = len(inp["sites"])
         ids = case["ids"]
@@ -1182,10 +1324,13 @@ class TimeCut(Flagged):
     workers = 8
 
     def _generate(self, rng, tier):
-        nd = 90 if tier == "quick" else 800
+        nd = 80 if tier == "quick" else 800
         for k in range(nd):
             mig = rng.random() < 0.25
             d = make_desc(rng, migrations=mig)
+            if rng.random() < 0.2:
+                d = extend_pattern(rng)            # chains of unary nodes, by-passed / re-used per tree
+                mig = False
             npop = len(d["populations"])
             for t2 in cut_times(d):
                 for op in ("split_edges", "decapitate", "delete_older"):
@@ -1247,7 +1392,7 @@ class TimeCut(Flagged):
 
     def oracle(self, case, obs):
         fails = []
-        inp = rows_of_desc(case["desc"])
+        inp = effective_input(case)
         op = case["op"]
         t = case["time2"]
         if op == "delete_older" and not case["sorted"]:
@@ -1521,8 +1666,9 @@ def extend_pattern(rng):
                 hops += 1
             m[3] = best
         muts += rows
-    return {"L": L, "scale": rng.choice([1, 0.5, 2.5]), "nodes": nodes, "edges": edges, "sites": sites,
-            "mutations": muts, "individuals": [], "populations": [], "migrations": []}
+    d = {"L": L, "scale": rng.choice([1, 0.5, 2.5]), "nodes": nodes, "edges": edges, "sites": sites,
+         "mutations": muts, "individuals": [], "populations": [], "migrations": []}
+    return gen_ts.permute_node_ids(rng, d, p=0.5)[0]
 
 
 def extend_partial(rng):
@@ -1580,7 +1726,7 @@ def extend_partial(rng):
         nid = {old: new for new, old in enumerate(idx)}
         d["mutations"] = [ms[j][:3] + [NULL if ms[j][3] == NULL else nid[ms[j][3]]] + ms[j][4:] for j in idx]
     rng.shuffle(d["edges"])
-    return d
+    return gen_ts.permute_node_ids(rng, d, p=0.5)[0]
 
 
 class Extend(Flagged):
